@@ -8,6 +8,8 @@ PROP=$1; N=$2; shift 2; CHECKS="$@"
 PFX=${MUTPFX:-/tmp/mut}; WT=$PFX-$PROP; OUT=$PFX-$PROP-out
 PATCH=$OUT/patch_$N.diff; DEMO=$OUT/demo_$N.rs
 DEST=/verif/seeded/$PROP-$N
+# MUT_REPO / MUT_VERIF: run the checks from a development copy (tools/devsync.sh) instead of /repo + /verif
+REPO=${MUT_REPO:-/repo}; VROOT=${MUT_VERIF:-/verif}; [ "$VROOT" != /verif ] && export PDBV_ROOT=$VROOT
 [ -f "$PATCH" ] || { echo "no patch $PATCH"; exit 2; }
 mkdir -p "$DEST"
 cd "$WT" || exit 2
@@ -29,17 +31,17 @@ fi
 git checkout -q -- . 
 echo "demo with change: $DEMO_WITH ; without: $DEMO_WITHOUT"
 # --- my checks against it
-cd /repo && git status --short | grep -q . && { echo "/repo not clean"; exit 2; }
-git -C /repo apply "$PATCH" || { echo "patch does not apply to /repo"; exit 2; }
+cd $REPO && git status --short | grep -q . && { echo "$REPO not clean"; exit 2; }
+git -C $REPO apply "$PATCH" || { echo "patch does not apply to $REPO"; exit 2; }
 RES=""
 for c in $CHECKS; do
-  cd /verif && timeout 1500 ./check $c quick > /tmp/mut-$PROP-$N-$c.out 2>&1; rc=$?
+  cd $VROOT && timeout 1500 ./check $c quick > /tmp/mut-$PROP-$N-$c.out 2>&1; rc=$?
   sig=$(grep -m1 "sig:" /tmp/mut-$PROP-$N-$c.out | sed 's/^ *sig: //')
   echo "check $c -> exit $rc  $sig"
   RES="$RES{\"check\":\"$c\",\"exit\":$rc,\"first_sig\":\"$sig\"},"
 done
-git -C /repo checkout -- .
-git -C /repo status --short
+git -C $REPO checkout -- .
+git -C $REPO status --short
 cp "$PATCH" "$DEST/patch.diff"; [ -f "$DEMO" ] && cp "$DEMO" "$DEST/demo.rs"
 python3 - "$OUT/meta_$N.json" "$DEST/meta.json" "$SUITE" "$DEMO_WITH" "$DEMO_WITHOUT" "[${RES%,}]" <<'PY'
 import json,sys
